@@ -24,6 +24,8 @@ type RunConfig struct {
 	Workers               int
 	TimeoutMs             int
 	MaxPaths              int
+	RangeFacts            bool // see Exec.knownNat
+	BudgetS               int // wall-clock budget of one harness exploration; exceeded = INCONCLUSIVE, never a verdict
 	SolverKind            string
 	LogDir                string
 	MaxViolationsPerLabel int
@@ -172,6 +174,16 @@ func explore(L *Loaded, init *InitState, fn *ssa.Function, cfg *RunConfig) *Harn
 				}
 				if len(wl.items) == 0 {
 					wl.Unlock()
+					wl.cond.Broadcast()
+					return
+				}
+				if cfg.BudgetS > 0 && time.Since(start) > time.Duration(cfg.BudgetS)*time.Second {
+					q := len(wl.items)
+					wl.items = nil
+					wl.Unlock()
+					hr.mu.Lock()
+					hr.Aborts[fmt.Sprintf("BUDGET: exploration stopped after %ds with unexplored paths (the code under test forks more than this harness's budget covers)", cfg.BudgetS)] += q
+					hr.mu.Unlock()
 					wl.cond.Broadcast()
 					return
 				}
